@@ -21,14 +21,66 @@ PROPS = {
         trusted=COMMON_TB + ["Go int modelled as unbounded Int (C17_int_overflow_irrelevant covers the guard)"],
         assumptions=["memory safety of the Go runtime slice primitives"],
     ),
+    "C02": dict(
+        modules=["HT.Props.C02"],
+        streams=["c02parse", "c02loop"],
+        rule="parsers: field-boundary enumeration (IHL 0..15 x total length around header/buffer bounds x actual "
+             "length; TCP data offset 0..15, every option layout up to 3 (quick) / 4 (thorough) option bytes over a "
+             "boundary alphabet placed at the end of the option area; UDP length vs actual; ICMP < 8) plus seeded "
+             "random bytes, each through the real parser and the Lean parser; receive loop: frame batches, scripted "
+             "connections with every post-handshake flag sequence up to length 2/3, no-ARP peers and a full state "
+             "table through the real Start() loop of a Canary on a socketpair in a child process, followed by a UDP "
+             "probe; non-trivial = parser accepted the frame / child reached the probe; distinct = distinct case line",
+        trusted=COMMON_TB + ["verif hook listener/canary/verif_hooks_linux.go (constructor on a socketpair, handler "
+                             "injection, table fill)",
+                             "modelled, not verified: UDP/ICMP handlers beyond their parse+isMe filter (their "
+                             "goroutines recover), Go runtime, kernel epoll/socket behaviour"],
+        assumptions=["frames shorter than 14 bytes are never delivered by the kernel",
+                     "ARP handling is unreachable (doARP cannot be set from the configuration)"],
+    ),
+    "C14": dict(
+        modules=["HT.Props.C14"],
+        streams=["c14tcp"],
+        rule="scripted TCP clients against the real handleTCP (synchronous injection through the verif hook): client "
+             "ISN boundary set x segment plans x FIN variants, server ISS boundary values via sequence-space rebase, "
+             "no-ARP and route-fallback peers, pairs of simultaneous connections (port-swapped, same ports/different "
+             "peers) under all (thorough) or every 5th (quick) interleaving of their steps, seeded random 1..4 "
+             "connections with malformed noise frames; every emitted frame decoded independently and checked; "
+             "non-trivial = handshake completed; distinct = distinct case line",
+        trusted=COMMON_TB + ["verif hook listener/canary/verif_hooks_linux.go",
+                             "modelled, not verified: Go scheduler (handler goroutine run to completion at its wake-up), "
+                             "ring-buffer data race between receive loop and handler, decoded-port protocol handlers"],
+        assumptions=["server ISS boundary values are reached by rebasing the connection's send sequence space through "
+                     "the hook (the drawn value is not steerable)"],
+    ),
 }
 
-HOOK_COMMITS = []
+HOOK_COMMITS = ["0596fc6", "c47bf54"]
 
 NOT_BUILT = "check not built yet in this round (design in DESIGN.md section 7); not claimed until its theorems and correspondence stream exist"
 NOT_APPLICABLE = {("C%02d" % i): NOT_BUILT for i in range(1, 21)}
 
 MANIFEST_TEXT = {
+    "C02": dict(
+        text="Lean theorems: every parser of the raw listener is total; one receive-loop step returns for every frame of "
+             ">= 14 bytes in every listener state and configuration (full table, no ARP entry included); by induction the "
+             "loop survives every frame history, and a UDP probe the listener accepts is accepted after every history. "
+             "Model tied to the code by parser-level differential runs and by child-process runs of the real Start() loop.",
+        design_ref="DESIGN.md section 7, C02",
+        note="Trusted: Lean kernel; hand models HT.Pkt/HT.Can; harness; verif hook. UDP/ICMP handler bodies run in "
+             "recovering goroutines and are modelled only up to their parse+isMe filter.",
+        technique="Lean 4 proof (totality + induction over frame histories) + differential correspondence",
+    ),
+    "C14": dict(
+        text="Lean theorems over UInt32 sequence arithmetic: SYN-ACK acknowledges ISN+1; the handshake ACK establishes the "
+             "connection for every server ISS (incl. the two that wrap); acks are exact modulo 2^32 by induction over the "
+             "segment list; FIN (with or without data) is answered; lookup returns only a state with the segment's 4-tuple; "
+             "a step changes only that connection's slot. Model tied to the real handleTCP/send by frame-exact differential runs.",
+        design_ref="DESIGN.md section 7, C14",
+        note="Partial: the handler goroutine hand-off (flush signal vs. Read) and the ring buffer race are scheduler "
+             "behaviour the sequential model cannot exhibit; decoded-port handlers are not modelled.",
+        technique="Lean 4 proof over UInt32 step function + frame-exact differential correspondence",
+    ),
     "C17": dict(
         text="Lean theorems: for every buffer, every in-bounds cursor and every operation sequence of any length with "
              "any integer arguments the decoder model never faults and keeps 0<=offset<=len; reads that fit return the "
